@@ -187,7 +187,7 @@ def run_shard(ctx):
         else:
             points = [(v, st, d) for v in nodes for st in range(N // 8, N, 7) for d in (0, 1000, 7000)]
             rng.shuffle(points)
-            points = points[:260]
+            points = points[:120]
         for victim, step, delay in points:
             scn = with_fault(base, {'at_step': step, 'kind': 'kill_restart', 'node': victim, 'delay_ms': delay}, delay + 12000)
             try:
